@@ -194,3 +194,26 @@ func HarnessPongsAfterReconnect() {
 	verif.Quiesce()
 	verif.Reach("pongs-after-reconnect-done")
 }
+
+// HarnessNoRenewalWithoutActivity: towards a blackholed peer the read deadline is
+// not pushed out by the client's own activity (new calls): only evidence that the
+// peer is alive may renew it, otherwise a busy client never notices a silent peer.
+func HarnessNoRenewalWithoutActivity() {
+	l := verif.ListenWS()
+	go blackholePeer(l)
+	var c C
+	closer, err := jsonrpc.NewMergeClient(context.Background(), l.URL(), "NS", []interface{}{&c}, nil,
+		jsonrpc.WithTimeout(time.Second), jsonrpc.WithPingInterval(100*time.Millisecond))
+	verif.Assert(err == nil, "client-created")
+	verif.Quiesce()
+	before := len(verif.ReadDeadlines())
+	for i := 0; i < 3; i++ {
+		go func() { c.Echo(context.Background(), 1) }()
+	}
+	verif.Quiesce()
+	after := len(verif.ReadDeadlines())
+	verif.Assert(after == before, "own-requests-do-not-renew-the-read-deadline")
+	closer()
+	verif.Quiesce()
+	verif.Reach("no-renewal-done")
+}
